@@ -361,3 +361,8 @@ func ModelTick(d time.Duration) <-chan time.Time  { return ModelNewTicker(d).C }
 // RealPools makes the engine execute sourcegraph/conc worker pools from their source on the scheduler
 // (by default a pool task runs to completion where it is submitted).
 func RealPools() {}
+
+// GoroutineID: in the engine, the id of the coroutine executing the call (0 = the harness itself). Used by
+// engine-only harnesses to assert confinement ("this state is only ever touched from one goroutine"), the
+// discipline that makes the single explored schedule representative. Natively 0.
+func GoroutineID() int { return 0 }
